@@ -9,6 +9,7 @@ mod c04;
 mod c05;
 mod c06;
 mod c07;
+mod c08;
 mod c09;
 mod c10;
 mod c11;
@@ -22,7 +23,7 @@ mod c18;
 use fw::*;
 
 fn defs() -> Vec<CheckDef> {
-    vec![c01::DEF, c03::DEF, c04::DEF, c05::DEF, c06::DEF, c07::DEF, c09::DEF, c10::DEF, c11::DEF, c12::DEF, c13::DEF, c14::DEF, c15::DEF, c16::DEF, c18::DEF]
+    vec![c01::DEF, c03::DEF, c04::DEF, c05::DEF, c06::DEF, c07::DEF, c08::DEF, c09::DEF, c10::DEF, c11::DEF, c12::DEF, c13::DEF, c14::DEF, c15::DEF, c16::DEF, c18::DEF]
 }
 
 fn arg_after(args: &[String], flag: &str) -> Option<String> {
